@@ -184,6 +184,10 @@ func (c *FConn) Read(b []byte) (int, error) {
 	if len(b) == 0 {
 		return 0, nil
 	}
+	if expired(c.deadline(true)) && !c.isClosed() {
+		// like a socket: an operation that starts after its deadline fails at once, whatever is buffered
+		return 0, timeoutErr("read")
+	}
 	f, chunk := c.nextFault(true)
 	limit := len(b)
 	if chunk > 0 && chunk < limit {
@@ -243,6 +247,10 @@ func (c *FConn) Read(b []byte) (int, error) {
 }
 
 func (c *FConn) Write(b []byte) (int, error) {
+	if expired(c.deadline(false)) && !c.isClosed() {
+		// like a socket: a write that starts after its deadline fails at once, also when there is room
+		return 0, timeoutErr("write")
+	}
 	f, _ := c.nextFault(false)
 	budget := -1 // bytes this call may accept before the scripted fault fires
 	var after FaultOp
